@@ -141,7 +141,10 @@ pub fn run(ctx: &Ctx) -> Report {
         every offset; plus stored point files (header + 4 objects) read \
         back through StoredPoint::load_quietly and its iterator with the \
         first object's size swept over 500 (thorough 8492) consecutive \
-        values; non-trivial = all".into();
+        values; and the repository state as a record of a real RRDP \
+        archive: published, then replaced in place 10 x 10 times by states \
+        of other lengths, read back through a fresh handle each time; \
+        non-trivial = all".into();
     let mut viol: Vec<(String, String, Value)> = Vec::new();
     let mut n = 0u64;
     let thorough = ctx.tier.thorough();
@@ -277,6 +280,58 @@ pub fn run(ctx: &Ctx) -> Report {
             |mut r| RepositoryState::verif_parse(&mut r).map_err(|e| e.to_string()))
         { viol.push((format!("{c}:large-map"), format!("delta state of {size} entries: {}", msg.chars().take(200).collect::<String>()), json!({"record": "RepositoryState", "delta_state": size}))); }
         CAPS.with(|c| *c.borrow_mut() = caps.clone());
+    }
+
+    // The RRDP repository state where it is really kept: as a record of the
+    // repository's archive, published once and then replaced in place by
+    // states of other lengths (more / fewer remembered deltas, validators
+    // appearing and disappearing) within and across the archive's pages.
+    {
+        use routinator::collector::RrdpArchive;
+        let dir = ctx.scratch.join("c28-archive");
+        let _ = std::fs::create_dir_all(&dir);
+        let state_of = |deltas: usize, etag_len: Option<usize>| RepositoryState {
+            rpki_notify: https_uris()[0].clone(), session: Uuid::from_u128(7), serial: deltas as u64 + 1, updated_ts: 1_700_000_000,
+            best_before_ts: 1_700_600_000, last_modified_ts: etag_len.map(|l| l as i64),
+            etag: etag_len.map(|l| Bytes::from(vec![b'e'; l])),
+            delta_state: (0..deltas as u64).map(|i| (i, rrdp::Hash::from_data(&i.to_be_bytes()))).collect(),
+        };
+        let shapes: Vec<(usize, Option<usize>)> = vec![(0, None), (1, None), (0, Some(2)), (2, Some(10)), (3, None), (1, Some(40)), (6, Some(3)), (20, None), (0, None), (5, Some(300))];
+        let mut steps = 0u64;
+        let r = util::catch(|| -> Result<(), String> {
+            for (fi, first) in shapes.iter().enumerate() {
+                let path = std::sync::Arc::new(dir.join(format!("a{fi}.bin")));
+                let _ = std::fs::remove_file(path.as_ref());
+                let mut archive = RrdpArchive::create(path.clone()).map_err(|_| "archive cannot be created".to_string())?;
+                let mut written = state_of(first.0, first.1);
+                archive.publish_state(&written).map_err(|_| "publish_state failed".to_string())?;
+                for (si, next) in shapes.iter().enumerate() {
+                    steps += 1;
+                    // read back what is there, through a fresh handle
+                    drop(archive);
+                    let reader = RrdpArchive::open(path.clone()).map_err(|_| "archive does not open".to_string())?;
+                    let got = reader.load_state().map_err(|_| format!("state written with {} deltas / validators {:?} does not load (archive {fi}, step {si})", written.delta_state.len(), written.etag.as_ref().map(|e| e.len())))?;
+                    if got != written {
+                        return Err(format!("state read back from the archive differs from the one written ({} deltas; archive {fi}, step {si})", written.delta_state.len()))
+                    }
+                    drop(reader);
+                    archive = RrdpArchive::try_open(path.clone()).map_err(|_| "archive does not open for writing".to_string())?.ok_or("archive vanished")?;
+                    written = state_of(next.0, next.1);
+                    archive.update_state(&written).map_err(|_| "update_state failed".to_string())?;
+                }
+                drop(archive);
+                let reader = RrdpArchive::open(path.clone()).map_err(|_| "archive does not open".to_string())?;
+                let got = reader.load_state().map_err(|_| "last state does not load".to_string())?;
+                if got != written { return Err("last state read back differs".into()) }
+                let _ = std::fs::remove_file(path.as_ref());
+            }
+            Ok(())
+        }).unwrap_or_else(|p| Err(format!("panic: {p}")));
+        n += steps;
+        if let Err(e) = r {
+            viol.push(("RepositoryState:archive".into(), e, json!({"record": "RepositoryState in its archive"})));
+        }
+        let _ = std::fs::remove_dir_all(&dir);
     }
 
     // Stored point files read back through the real buffered file reader:
